@@ -1,7 +1,7 @@
 (* C07 — Serialized data validates against serialization_schema. *)
 From Coq Require Import List String ZArith Bool.
 From AV Require Import Core.Json Deser.Model Deser.Spec Ser.Model Ser.Spec Ser.RoundTrip Ser.RoundTripInd Schema.Json Schema.Build Schema.Proofs
-  Schema.AgreeProofs Schema.SerAgree Schema.BuildSer Schema.RefAgree Schema.SerClassProofs.
+  Schema.AgreeProofs Schema.SerAgree Schema.BuildSer Schema.RefAgree Schema.SerClassProofs Schema.SerRequired Ser.CompileProofs.
 Import ListNotations.
 
 (* the union schema accepts whatever one of the alternatives' schemas accepts: the serialized form of a union value,
@@ -64,3 +64,42 @@ Theorem C07_class_hypotheses_satisfiable :
   refs_of_ser ser_ex_univ false (TObj 2) = ["C0"; "E0"]%string /\ ser_hyps ser_ex_univ ser_ex_opts (TObj 2) 3 12 ser_ex_value = true.
 Proof. exact ser_ex. Qed.
 Print Assumptions C07_class_hypotheses_satisfiable.
+
+(* EVERY CLASS.  `required` is decided in the schema builder (ObjectField.skippable; Schema/BuildSer.v: elem_required) and
+   the omission is decided again, field by field, in the serializer (Ser/Spec.v: omitted).  For every combination of
+   skip(...) option, kind of default (none / None / Undefined / a value), Optional / Undefined union, none_as_undefined,
+   exclude_none, exclude_defaults, TypedDict totality and serialized method: a field the schema requires is never omitted. *)
+Theorem C07_required_field_never_omitted : forall o cd obj fd xv,
+  (so_excl_unset o && cd_fields_set cd)%bool = false ->                       (* no unset-tracking *)
+  elem_required o cd (EField fd) = true ->
+  (is_typed_dict cd = false -> xv = VUndefined -> fs_undefined (fd_ser fd) = true) ->     (* typing of Undefined *)
+  omitted o cd obj fd (Some xv) = false.
+Proof. exact required_field_never_omitted. Qed.
+Print Assumptions C07_required_field_never_omitted.
+
+(* and for whole objects, whatever the order(), the methods and the additional properties of a TypedDict: the `required`
+   keyword of the schema model holds of what serialization produces for every well-typed instance, and every emitted key
+   is one of its `properties` (so `additionalProperties: false` holds) *)
+Theorem C07_required_keys_always_emitted_and_emitted_keys_declared : forall u o n m c v out ds,
+  image u o (S m) (TObj c) v = SROk (VDict out) -> unembed_items out = Some ds ->
+  has_type u (S n) (TObj c) v = true ->
+  (so_excl_unset o && cd_fields_set (get_cls u c))%bool = false ->
+  let cd := get_cls u c in
+  let es := elems_of cd in
+  required_ok (map (elem_alias o) (filter (elem_required o cd) es)) (PDict ds) = true
+  /\ ((is_typed_dict cd && so_addprops o)%bool = false ->
+      forallb (fun kd => existsb (String.eqb (fst kd)) (map (elem_alias o) es)) ds = true).
+Proof. exact serialization_required_and_additional_hold. Qed.
+Print Assumptions C07_required_keys_always_emitted_and_emitted_keys_declared.
+
+Theorem C07_required_hypotheses_satisfiable :
+  exists out ds,
+    image cc_ex_univ cc_ex_opts 5 (TObj 0) cc_ex_value = SROk (VDict out) /\ unembed_items out = Some ds
+    /\ has_type cc_ex_univ 5 (TObj 0) cc_ex_value = true
+    /\ (so_excl_unset cc_ex_opts && cd_fields_set (get_cls cc_ex_univ 0))%bool = false
+    /\ map (elem_alias cc_ex_opts) (filter (elem_required cc_ex_opts (get_cls cc_ex_univ 0)) (elems_of (get_cls cc_ex_univ 0)))
+       = ["p_v"; "p_pos"; "p_extra"; "p_size"]%string
+    /\ map (elem_alias cc_ex_opts) (elems_of (get_cls cc_ex_univ 0)) = ["p_v"; "p_nextNode"; "p_tags"; "p_pos"; "p_extra"; "p_size"]%string
+    /\ map fst ds = ["p_v"; "p_nextNode"; "p_tags"; "p_pos"; "p_extra"; "p_size"]%string.
+Proof. exact required_ex. Qed.
+Print Assumptions C07_required_hypotheses_satisfiable.
